@@ -14,6 +14,7 @@ DEV_BOUNDS = ("1 rank, 1-8 threads, 7 schedulers (ip/llp/ll: KF-DTD-AGAIN-LIVELO
               "skip_empty_events, sort_pending; allocation unit = 1 or 1/2 tile.  Plans are drawn from four sub-spaces that stay clear of the recorded accelerator-layer findings (sim/dev/NOTES.md): "
               "(1) accelerators read only, 1-3 devices, memory >= all tiles; (2) one device reading and writing, memory >= all tiles; (3) one device with 3-5 tiles of memory, two device-resident dirty tiles, accelerator tasks "
               "serialised through tile 0, LRU eviction of the streamed tiles; (4) 1-3 devices with 3-5 tiles of memory, accelerators read only and are serialised through a token tile, constant eviction and re-staging.  "
-              "The full space is reachable with knob mode=0 (sim/dev/fullspace_check.py).  No task completes before the last insertion (KF-DTD-WAR-RACE), no tile twice in one task (KF-DTD-REPEATED-TILE)")
+              "The full space is reachable with knob mode=0 (sim/dev/fullspace_check.py).  No task completes before the last insertion and every tile is first written by a CPU task (KF-DTD-WAR-RACE), no tile twice in one task (KF-DTD-REPEATED-TILE); "
+              "flush_all after a first taskpool_wait, modes 3/4 with 2-4 threads, without spq and with at most one polling writer (KF-DTD-AGAIN-LIVELOCK family); step budget 120 M with the fair tail after 40 M")
 REGISTRY["C43"] = l2("C43", "dev", ["harness/l3/dev_driver.c", "sim/dev/simdev_parsec.c"], ["harness/l3/dev.c", "sim/dev/simdev.c"], 1, DEV_REAL, DEV_BOUNDS,
     knobs=["prop=43"] + _os.environ.get("DEV_KNOBS", "").split(), engine="simcore-L3", variant="Bdev", prebuild=_dev_prebuild_c43, stub=DEV_STUB)
